@@ -438,12 +438,13 @@ func GenGrammarMetric(t *rapid.T, depth int, allowYear bool) *gen.Metric {
 				return &gen.Metric{Kind: "literal", Value: v, ValueText: sign + txt}
 			}
 			o := GenGrammarMetric(t, depth-1, allowYear)
-			// Operator grouping is C13's subject: nested operations are parenthesised, except
-			// that the right operand of a set operator may be a bare tighter-binding operation
-			// (which may itself start with a scalar: "a and 2 == b").
+			// Operator grouping at equal precedence is C13's subject (and the domain of its known
+			// finding): nested operations are parenthesised, except that an operand may be a bare
+			// operation that binds strictly tighter than this one ("a * b + c", "a unless b or c",
+			// "a and 2 == b") - its text then denotes the same tree without parentheses.
 			if o.Kind == "binop" && o.Parens == 0 {
 				// (not over two scalars: Loki folds "1+2" into a scalar, which a set operator rejects)
-				if isSet(m.Op) && label == "gm-r" && !isSet(o.Op) && !(o.L.Kind == "literal" && o.R.Kind == "literal") && rapid.Bool().Draw(t, label+"-bare") {
+				if BinPrec(o.Op) > BinPrec(m.Op) && !(o.L.Kind == "literal" && o.R.Kind == "literal") && rapid.Bool().Draw(t, label+"-bare") {
 					return o
 				}
 				o.Parens = 1
@@ -486,6 +487,25 @@ func startsWithNumber(m *gen.Metric) bool {
 		return startsWithNumber(m.L)
 	}
 	return false
+}
+
+// BinPrec is the conventional precedence level of a binary operator (higher binds tighter).
+func BinPrec(op string) int {
+	switch op {
+	case "or":
+		return 1
+	case "and", "unless":
+		return 2
+	case "==", "!=", ">", ">=", "<", "<=":
+		return 3
+	case "+", "-":
+		return 4
+	case "*", "/", "%":
+		return 5
+	case "^":
+		return 6
+	}
+	return 0
 }
 
 func isSet(op string) bool { return op == "and" || op == "or" || op == "unless" }
